@@ -9,6 +9,9 @@ package peer
 // Load-then-Store rewrite of Next is explored, not merely race-detected). All interleavings (no preemption bound). Sequentially, the
 // first 2^16 ids of each side. Oracle: ids non-zero, pairwise distinct per allocator,
 // odd on the dialer, even on the acceptor (hence the two ends never collide).
+//
+// Part M (manager_test.go): every history of <= 3 (thorough 4) connection episodes between two real
+// peer.Managers (who dials x ids per end x how the episode ends), the ids of BOTH ends per episode.
 
 import (
 	"fmt"
@@ -29,6 +32,8 @@ type c38Replay struct {
 	Threads int   `json:"threads"`
 	Calls   int   `json:"calls"`
 	Choices []int `json:"choices"`
+	// part M (manager_test.go): a connection history through the real peer.Manager
+	History []c38Episode `json:"manager_history,omitempty"`
 }
 
 func c38Run(viaConn, dialer bool, threads, calls int, c *vmc.Chooser) ([][]uint64, sched.Outcome) {
@@ -83,7 +88,20 @@ func TestVerif_C38(t *testing.T) {
 	r := vmc.New("C38", "model_checking")
 	r.Rule = "all interleavings of T threads x K Next() calls on the real StreamIDAllocator (points before every atomic op and statement), for the dialer and the acceptor allocator; plus the first 65536 sequential ids per side; distinct = distinct per-thread id assignment"
 	var rp c38Replay
-	if r.ReplayInto(&rp) {
+	if r.ReplayInto(&rp) && rp.History != nil {
+		got, err := c38RunHistory(rp.History)
+		if err != nil {
+			r.HarnessError("C38 manager history replay: %v", err)
+		}
+		c38CheckHistory(r, rp.History, got)
+		r.Add("states", 1)
+		r.Add("transitions", 1)
+		if err := r.Finish(); err != nil {
+			t.Fatal(err)
+		}
+		return
+	}
+	if r.Replaying {
 		got, _ := c38Run(rp.Conn, rp.Dialer, rp.Threads, rp.Calls, vmc.NewReplayChooser(rp.Choices))
 		c38Check(r, rp.Dialer, got, func() any { return rp })
 		r.Add("states", 1)
@@ -107,7 +125,7 @@ func TestVerif_C38(t *testing.T) {
 					if out.Deadlock || out.Horizon || out.Panic != nil {
 						r.HarnessError("C38 execution did not finish cleanly: %+v", out)
 					}
-					c38Check(r, dialer, got, func() any { return c38Replay{viaConn, dialer, cf.threads, cf.calls, c.Choices()} })
+					c38Check(r, dialer, got, func() any { return c38Replay{Conn: viaConn, Dialer: dialer, Threads: cf.threads, Calls: cf.calls, Choices: c.Choices()} })
 				}, vmc.DFSOpts{Bound: cf.bound})
 				r.Add("evaluations", st.Executions)
 				r.Add("states", st.Executions)
@@ -117,6 +135,8 @@ func TestVerif_C38(t *testing.T) {
 			}
 		}
 	}
+	// part M: connection histories through the real Manager (manager_test.go)
+	c38ManagerPart(r)
 	// sequential supplement
 	for _, dialer := range []bool{true, false} {
 		a := transport.NewStreamIDAllocator(dialer)
